@@ -520,10 +520,25 @@ func registerIntrinsics(e *Engine) {
 	// --- sort
 	in["sort.Strings"] = func(fr *frame, args []value) value {
 		xs := args[0].([]value)
-		ss := fr.m.concreteStrings(xs, "sort.Strings")
-		sort.Strings(ss)
-		for i := range xs {
-			xs[i] = ss[i]
+		allConcrete := true
+		for _, x := range xs {
+			if _, ok := x.(string); !ok {
+				allConcrete = false
+			}
+		}
+		if allConcrete {
+			ss := fr.m.concreteStrings(xs, "sort.Strings")
+			sort.Strings(ss)
+			for i := range xs {
+				xs[i] = ss[i]
+			}
+			return nil
+		}
+		// insertion sort; the order must be decided by literal prefixes
+		for i := 1; i < len(xs); i++ {
+			for j := i; j > 0 && fr.m.ropeLess(xs[j], xs[j-1]); j-- {
+				xs[j], xs[j-1] = xs[j-1], xs[j]
+			}
 		}
 		return nil
 	}
